@@ -28,6 +28,9 @@ type c02Case struct {
 	Hold *ktrace.Hold `json:"hold,omitempty"`
 	Mode string       `json:"mode"` // "sync" | "async"
 	Only *int         `json:"only_image,omitempty"`
+	// Tail: only the crash points after the session's "TAIL" marker are examined (long sessions whose beginning is
+	// ordinary and covered elsewhere)
+	Tail bool `json:"tail,omitempty"`
 }
 
 var crashKeys = []string{"a", "b", "c"}
@@ -45,6 +48,21 @@ func mkDBSession(cfg sess.Cfg, ops ...sess.Op) sess.Session {
 	c := cfg
 	all := append([]sess.Op{{Op: "open", Cfg: &c}}, ops...)
 	return sess.Session{Kind: "db", Ops: all}
+}
+
+// walNumbersSession: nine forced rotations (WAL file numbers reach 9), then one key is overwritten until the WAL file of
+// that memstore generation has rotated by size (limit = 100 x the 400-byte memstore limit), a final value, a flush, Close.
+func walNumbersSession(async bool) sess.Session {
+	cfg := sess.Cfg{Mem: 400, Thresh: 100, Ratio: 1.0, RBuf: 4096, WBuf: 4096, Async: async}
+	var ops []sess.Op
+	for i := 0; i < 9; i++ {
+		ops = append(ops, sess.Op{Op: "put", K: "b", V: []string{"x", "y", "z"}[i%3]}, sess.Op{Op: "rotwait"})
+	}
+	for i := 0; i < 230; i++ {
+		ops = append(ops, sess.Op{Op: "put", K: "a", V: fmt.Sprintf("I%d", 200+i%7)})
+	}
+	ops = append(ops, sess.Op{Op: "mark", Text: "TAIL"}, sess.Op{Op: "put", K: "a", V: "w"}, sess.Op{Op: "rotwait"}, sess.Op{Op: "put", K: "c", V: "x"}, sess.Op{Op: "close"})
+	return mkDBSession(cfg, ops...)
 }
 
 func progs(alpha []sess.Op, maxLen int) [][]sess.Op {
@@ -137,6 +155,7 @@ func (c c02) sessions(tier string) []c02Case {
 		ops = append(ops, sess.Op{Op: "del", K: "b"}, cl)
 		out = append(out, c02Case{Name: "i-twelve-rotations", Mode: mode, Sess: mkDBSession(tiny, ops...)})
 	}
+	out = append(out, c02Case{Name: "i-wal-size-rotation-after-nine-rotations", Mode: mode, Sess: walNumbersSession(async), Tail: true})
 	// (iii) two-session history
 	{
 		c2 := small
@@ -262,6 +281,22 @@ func (c c02) Case(w *core.WCtx, payload json.RawMessage) core.Result {
 		}
 	}
 	sits := situations(tr)
+	if cs.Tail {
+		from := len(tr.Events)
+		for i, e := range tr.Events {
+			if e.Kind == "marker" && e.Marker == "TAIL" {
+				from = i
+				break
+			}
+		}
+		var kept []crashSituation
+		for _, s := range sits {
+			if s.Event < 0 || s.Event >= from {
+				kept = append(kept, s)
+			}
+		}
+		sits = kept
+	}
 	// group situations by image
 	byImg := map[int][]crashSituation{}
 	for _, s := range sits {
